@@ -330,6 +330,32 @@ func (c *Ctx) refGuard(caller, callee *ssa.Function, site ssa.CallInstruction, a
 	if found != "" {
 		return found
 	}
+	// Form A': the test is made through a predicate helper (if ms.isExpanding(g) { return error })
+	eachInstr(caller, func(in ssa.Instruction) {
+		if found != "" {
+			return
+		}
+		mu, ok := in.(*ssa.MapUpdate)
+		if !ok || !dominates(mu, site) || (!isTrueConst(mu.Value) && !isNonZeroStore(mu.Value)) || !keyRelatesToArg(mu.Key, arg) {
+			return
+		}
+		eachInstr(caller, func(in2 ssa.Instruction) {
+			call, isC := in2.(*ssa.Call)
+			if !isC || found != "" || !dominates(call, mu) {
+				return
+			}
+			mapAP, key, isPred := c.lookupPredicate(call)
+			if !isPred || mapAP != AccessPath(mu.Map) || !sameKey(key, mu.Key) {
+				return
+			}
+			if boolFalseGuards(call, site) {
+				found = fmt.Sprintf("test (through %s) and set on %s[%s] in the caller dominates the call", c.FnName(call.Call.StaticCallee()), shortPath(mapAP), shortPath(AccessPath(mu.Key)))
+			}
+		})
+	})
+	if found != "" {
+		return found
+	}
 	// Form B
 	if param == nil {
 		return ""
@@ -650,4 +676,66 @@ func isParamOrSpill(v ssa.Value) bool {
 		}
 	}
 	return n == 1 && isP
+}
+
+// lookupPredicate: the call is to a repo function that does nothing but return m[k] for a bool-valued map m that
+// is a field of one parameter and a key k that is another parameter. Returns the map's access path and the key
+// in terms of the call's arguments.
+func (c *Ctx) lookupPredicate(call *ssa.Call) (string, ssa.Value, bool) {
+	f := call.Call.StaticCallee()
+	if f == nil || !c.isRepoFn(f) || len(f.Blocks) != 1 {
+		return "", nil, false
+	}
+	r, isR := f.Blocks[0].Instrs[len(f.Blocks[0].Instrs)-1].(*ssa.Return)
+	if !isR || len(r.Results) != 1 {
+		return "", nil, false
+	}
+	l, isL := r.Results[0].(*ssa.Lookup)
+	if !isL || l.CommaOk {
+		return "", nil, false
+	}
+	for _, in := range f.Blocks[0].Instrs {
+		switch in.(type) {
+		case *ssa.Store, *ssa.MapUpdate, *ssa.Call, *ssa.Go, *ssa.Defer:
+			return "", nil, false
+		}
+	}
+	_, mf, mbase := loadedField(l.X)
+	if mf == nil {
+		return "", nil, false
+	}
+	mi, ki := -1, -1
+	for i := range f.Params {
+		if isParamN(f, mbase, i) {
+			mi = i
+		}
+		if isParamN(f, l.Index, i) {
+			ki = i
+		}
+	}
+	args := call.Call.Args
+	if mi < 0 || ki < 0 || mi >= len(args) || ki >= len(args) {
+		return "", nil, false
+	}
+	return AccessPath(args[mi]) + "." + recordedFieldName(mf), args[ki], true
+}
+
+// boolFalseGuards: `at` is reached only when the bool value v was false.
+func boolFalseGuards(v ssa.Value, at ssa.Instruction) bool {
+	for _, g := range guardsAt(at.Block()) {
+		cond, br := stripNot(g.Cond, g.Branch)
+		if cond == v && !br {
+			return true
+		}
+	}
+	for _, r := range refsOf(v) {
+		ifi, isIf := r.(*ssa.If)
+		if !isIf {
+			continue
+		}
+		if !blockReaches(ifi.Block().Succs[0], at.Block(), map[*ssa.BasicBlock]bool{ifi.Block(): true}) {
+			return true
+		}
+	}
+	return false
 }
